@@ -9,7 +9,8 @@ GLOBAL_TRUSTED = [
     "Verus 0.2026.09.13 + Z3 (lemmas and the extracted functions of eviction/lru.rs)",
     "rustc / cargo; std, thin-vec, boxcar, smallvec, crossbeam as compiled (executed symbolically, trusted only where stubbed); hashbrown / indexmap / hashlink only where P4 does not apply (interned.rs, dependency_graph.rs, zalsa.rs)",
     "tools/instrument.py (anchor-based injection of cfg(kani) attributes and child modules; nothing inside a function body is edited)",
-    "cfg(kani) substitutions P1 (tracing events -> no-op), P2 (sequential sync shim: Mutex=RefCell, constant ThreadId), P3 (interned memory_usage not compiled), P4 (association-list models of IndexSet / HashSet / LinkedHashSet / hashbrown HashTable+HashMap / the page-pool map: contracts/collections.rs - that the real collections implement these documented semantics is trusted)",
+    "cfg(kani) substitutions P1 (tracing events -> no-op), P2 (sequential sync shim: Mutex=RefCell, constant ThreadId), P3 (interned memory_usage not compiled), P4 (association-list models of IndexSet / HashSet / LinkedHashSet / hashbrown HashTable+HashMap / the page-pool map and the per-handle page cache map: contracts/collections.rs, inline-array backed - that the real collections implement these documented semantics is trusted)",
+    "harness-side placement of heap objects in typed stack / static cells (DESIGN.md 14.1): the query stack's Vec<ActiveQuery> buffer (Vec::from_raw_parts over a 4-frame cell: real push/pop code, a fifth nested frame fails the harness) and, for Storage harnesses, Arc<Zalsa>'s heap cell (a repr(C) struct with ArcInner's layout)",
 ]
 GLOBAL_ASSUMPTIONS = [
     "Kani: machine integers with overflow checks on; termination not proved; single-threaded (atomics sequential); panics are failures (panic=abort)",
